@@ -593,6 +593,49 @@ theorem sound_bindTargets (b : Bool) (ts : List Target) :
       · rename_i hb
         exact (sound_bindEntries _ _ _ hb).trans (ih h)
 
+/-- what a compound assignment step can do: nothing, or bind `k` and (under export_top_level_ids)
+export `k` -/
+theorem compoundStep_spec (cfg : Cfg) (k : Name) (op : COp) (r : Rhs) (fr : Frame) (st : St) :
+    ∃ e fr1 v b, compoundStep cfg k op r fr st = (e, fr1, exportIf b k v st)
+      ∧ fr1.exportTop = fr.exportTop ∧ (b = true → fr.exportTop = true) := by
+  have hbase : ∀ e, ∃ e' fr1 v b, ((e, fr, st) : Option Err × Frame × St) = (e', fr1, exportIf b k v st)
+      ∧ fr1.exportTop = fr.exportTop ∧ (b = true → fr.exportTop = true) :=
+    fun e => ⟨e, fr, .null, false, by simp [exportIf], rfl, by simp⟩
+  unfold compoundStep
+  split
+  · split
+    · exact hbase _
+    · refine ⟨none, _, _, fr.exportTop, rfl, ?_, fun h => h⟩
+      split <;> rfl
+    · exact hbase _
+  · split
+    · exact hbase _
+    · exact hbase _
+  · exact hbase _
+
+theorem sound_compoundStep (cfg : Cfg) (k : Name) (op : COp) (r : Rhs) {fr fr' : Frame} {s s' : St}
+    {e : Option Err} (h : compoundStep cfg k op r fr s = (e, fr', s')) : Sound s s' := by
+  obtain ⟨e1, fr1, v, b, heq, _, _⟩ := compoundStep_spec cfg k op r fr s
+  rw [heq] at h
+  simp only [Prod.mk.injEq] at h
+  rw [← h.2.2]; exact sound_exportIf _ _ _ _
+
+theorem sound_compoundLoop (cfg : Cfg) (k : Name) (op : COp) (r : Rhs) (n : Nat) :
+    ∀ {fr fr' : Frame} {s s' : St} {e : Option Err},
+    compoundLoop cfg k op r n fr s = (e, fr', s') → Sound s s' := by
+  induction n with
+  | zero =>
+    intro fr fr' s s' e h
+    simp only [compoundLoop, Prod.mk.injEq] at h; rw [← h.2.2]; exact Sound.refl s
+  | succ n ih =>
+    intro fr fr' s s' e h
+    unfold compoundLoop at h
+    split at h
+    · rename_i hc
+      simp only [Prod.mk.injEq] at h; rw [← h.2.2]; exact sound_compoundStep _ _ _ _ hc
+    · rename_i hc
+      exact (sound_compoundStep _ _ _ _ hc).trans (ih h)
+
 theorem sound_execAct {cfg : Cfg} {fs : FS} {rec : Runner} (hrec : RecSound rec) {a : Act}
     {fr fr' : Frame} {s s' : St} {r : Option Err}
     (h : execAct cfg fs rec a fr s = some (r, fr', s')) : Sound s s' := by
@@ -659,6 +702,19 @@ theorem sound_execAct {cfg : Cfg} {fs : FS} {rec : Runner} (hrec : RecSound rec)
     · simp only [Option.some.injEq, Prod.mk.injEq] at h; rw [← h.2.2]; exact Sound.refl s
     · simp only [Option.some.injEq] at h
       exact sound_bindTargets _ _ h
+  · -- compound assignment
+    simp only [Option.some.injEq] at h
+    exact sound_compoundStep _ _ _ _ h
+  · split at h
+    · rename_i hc
+      simp only [Option.some.injEq, Prod.mk.injEq] at h; rw [← h.2.2]; exact sound_compoundLoop _ _ _ _ _ hc
+    · rename_i hc
+      simp only [Option.some.injEq, Prod.mk.injEq] at h; rw [← h.2.2]
+      exact (sound_compoundLoop _ _ _ _ _ hc).trans (sound_exportIf _ _ _ _)
+  · -- assignment nested in a conditional
+    split at h
+    · simp only [Option.some.injEq, Prod.mk.injEq] at h; rw [← h.2.2]; exact Sound.refl s
+    · simp only [Option.some.injEq, Prod.mk.injEq] at h; rw [← h.2.2]; exact sound_exportIf _ _ _ s
 
 theorem sound_execActs {cfg : Cfg} {fs : FS} {rec : Runner} (hrec : RecSound rec)
     (acts : List Act) : ∀ {fr fr' : Frame} {s s' : St} {r : Option Err},
@@ -899,6 +955,9 @@ def touches (al sa et : Bool) (k : Name) : Act → Bool
   | .fromImport _ items => et && items.any (fun i => i.exportKey? al sa == some k)
   | .fromAll _ => et
   | .assignPat exp targets _ => (exp || et) && (boundIds targets).contains k
+  | .compound k' _ _ => et && k' == k
+  | .loopCompound _ k' _ _ => et && (k' == k || loopVar == k)
+  | .condAssign _ k' _ => et && k' == k
   | _ => false
 
 def touchesT (al sa et : Bool) (k : Name) : TAct → Bool
@@ -1076,6 +1135,39 @@ theorem bindTargets_keeps (b : Bool) (k : Name) (ts : List Target) :
         obtain ⟨h3, h4⟩ := ih h hsplit.2
         exact ⟨by rw [h3, h1], by rw [h4, h2]⟩
 
+theorem compoundStep_keeps (cfg : Cfg) (k' k : Name) (op : COp) (r : Rhs) {fr fr' : Frame} {s s' : St}
+    {e : Option Err} (h : compoundStep cfg k' op r fr s = (e, fr', s'))
+    (ht : (fr.exportTop && k' == k) = false) :
+    lookup k s'.exports.data = lookup k s.exports.data ∧ fr'.exportTop = fr.exportTop := by
+  obtain ⟨e1, fr1, v, b, heq, hfr, hb⟩ := compoundStep_spec cfg k' op r fr s
+  rw [heq] at h
+  simp only [Prod.mk.injEq] at h
+  rw [← h.2.2, ← h.2.1]
+  refine ⟨exportIf_lookup_ne _ _ _ _ _ ?_, hfr⟩
+  intro hbt
+  rw [hb hbt] at ht
+  simp only [Bool.true_and, beq_eq_false_iff_ne] at ht
+  exact fun hh => ht hh.symm
+
+theorem compoundLoop_keeps (cfg : Cfg) (k' k : Name) (op : COp) (r : Rhs) (n : Nat) :
+    ∀ {fr fr' : Frame} {s s' : St} {e : Option Err},
+    compoundLoop cfg k' op r n fr s = (e, fr', s') → (fr.exportTop && k' == k) = false →
+    lookup k s'.exports.data = lookup k s.exports.data ∧ fr'.exportTop = fr.exportTop := by
+  induction n with
+  | zero =>
+    intro fr fr' s s' e h _
+    simp only [compoundLoop, Prod.mk.injEq] at h; rw [← h.2.2, ← h.2.1]; exact ⟨rfl, rfl⟩
+  | succ n ih =>
+    intro fr fr' s s' e h ht
+    unfold compoundLoop at h
+    split at h
+    · rename_i hc
+      simp only [Prod.mk.injEq] at h; rw [← h.2.2, ← h.2.1]; exact compoundStep_keeps _ _ _ _ _ hc ht
+    · rename_i hc
+      obtain ⟨h1, h2⟩ := compoundStep_keeps _ _ _ _ _ hc ht
+      obtain ⟨h3, h4⟩ := ih h (by rw [h2]; exact ht)
+      exact ⟨by rw [h3, h1], by rw [h4, h2]⟩
+
 /-- a statement that does not write entry `k` leaves it alone — whatever it imports on the way -/
 theorem execAct_keeps {cfg : Cfg} {fs : FS} {rec : Runner} {a : Act} {fr fr' : Frame} {s s' : St}
     {r : Option Err} (k : Name) (h : execAct cfg fs rec a fr s = some (r, fr', s'))
@@ -1145,6 +1237,32 @@ theorem execAct_keeps {cfg : Cfg} {fs : FS} {rec : Runner} {a : Act} {fr fr' : F
     · simp only [Option.some.injEq, Prod.mk.injEq] at h; rw [← h.2.2, ← h.2.1]; exact ⟨rfl, rfl⟩
     · simp only [Option.some.injEq] at h
       exact bindTargets_keeps _ k _ h (by simpa [touches] using ht)
+  · simp only [Option.some.injEq] at h
+    exact compoundStep_keeps _ _ k _ _ h (by simpa [touches] using ht)
+  · rename_i n kk op r
+    have ht1 : (fr.exportTop && kk == k) = false ∧ (fr.exportTop = true → k ≠ loopVar) := by
+      cases het : fr.exportTop with
+      | false => simp
+      | true =>
+        simp only [touches, het, Bool.true_and, Bool.or_eq_false_iff, beq_eq_false_iff_ne] at ht
+        exact ⟨by simpa using ht.1, fun _ hh => ht.2 hh.symm⟩
+    split at h
+    · rename_i hc
+      simp only [Option.some.injEq, Prod.mk.injEq] at h; rw [← h.2.2, ← h.2.1]
+      exact compoundLoop_keeps _ _ k _ _ _ hc ht1.1
+    · rename_i fr1 s1 hc
+      obtain ⟨h1, h2⟩ := compoundLoop_keeps _ _ k _ _ _ hc ht1.1
+      simp only [Option.some.injEq, Prod.mk.injEq] at h; rw [← h.2.2, ← h.2.1]
+      refine ⟨?_, by rw [bind_exportTop, h2]⟩
+      rw [exportIf_lookup_ne _ _ _ _ _ (fun hb => ht1.2 (by rw [← h2]; exact hb)), h1]
+  · split at h
+    · simp only [Option.some.injEq, Prod.mk.injEq] at h; rw [← h.2.2, ← h.2.1]
+      exact ⟨rfl, by split <;> rfl⟩
+    · simp only [Option.some.injEq, Prod.mk.injEq] at h; rw [← h.2.2, ← h.2.1]
+      refine ⟨exportIf_lookup_ne _ _ _ _ _ ?_, rfl⟩
+      intro het
+      simp only [touches, het, Bool.true_and, beq_eq_false_iff_ne] at ht
+      exact fun hh => ht hh.symm
 
 theorem execTAct_keeps {cfg : Cfg} {fs : FS} {rec : Runner} {a : TAct} {fr fr' : Frame} {s s' : St}
     {r : Option Err} (k : Name) (h : execTAct cfg fs rec a fr s = some (r, fr', s'))
@@ -1249,6 +1367,27 @@ theorem bindTargets_exportTop (b : Bool) (ts : List Target) :
       · rename_i hb
         rw [ih h, bindEntries_exportTop _ _ _ hb]
 
+theorem compoundStep_exportTop (cfg : Cfg) (k : Name) (op : COp) (r : Rhs) {fr fr' : Frame} {s s' : St}
+    {e : Option Err} (h : compoundStep cfg k op r fr s = (e, fr', s')) : fr'.exportTop = fr.exportTop := by
+  obtain ⟨e1, fr1, v, b, heq, hfr, _⟩ := compoundStep_spec cfg k op r fr s
+  rw [heq] at h
+  simp only [Prod.mk.injEq] at h
+  rw [← h.2.1]; exact hfr
+
+theorem compoundLoop_exportTop (cfg : Cfg) (k : Name) (op : COp) (r : Rhs) (n : Nat) :
+    ∀ {fr fr' : Frame} {s s' : St} {e : Option Err},
+    compoundLoop cfg k op r n fr s = (e, fr', s') → fr'.exportTop = fr.exportTop := by
+  induction n with
+  | zero => intro fr fr' s s' e h; simp only [compoundLoop, Prod.mk.injEq] at h; rw [← h.2.1]
+  | succ n ih =>
+    intro fr fr' s s' e h
+    unfold compoundLoop at h
+    split at h
+    · rename_i hc
+      simp only [Prod.mk.injEq] at h; rw [← h.2.1]; exact compoundStep_exportTop _ _ _ _ hc
+    · rename_i hc
+      rw [ih h, compoundStep_exportTop _ _ _ _ hc]
+
 theorem execAct_exportTop {cfg : Cfg} {fs : FS} {rec : Runner} {a : Act} {fr fr' : Frame} {s s' : St}
     {r : Option Err} (h : execAct cfg fs rec a fr s = some (r, fr', s')) :
     fr'.exportTop = fr.exportTop := by
@@ -1286,6 +1425,17 @@ theorem execAct_exportTop {cfg : Cfg} {fs : FS} {rec : Runner} {a : Act} {fr fr'
     · simp only [Option.some.injEq, Prod.mk.injEq] at h; rw [← h.2.1]
     · simp only [Option.some.injEq] at h
       exact bindTargets_exportTop _ _ h
+  · simp only [Option.some.injEq] at h
+    exact compoundStep_exportTop _ _ _ _ h
+  · split at h
+    · rename_i hc
+      simp only [Option.some.injEq, Prod.mk.injEq] at h; rw [← h.2.1]; exact compoundLoop_exportTop _ _ _ _ _ hc
+    · rename_i hc
+      simp only [Option.some.injEq, Prod.mk.injEq] at h; rw [← h.2.1, bind_exportTop]
+      exact compoundLoop_exportTop _ _ _ _ _ hc
+  · split at h
+    · simp only [Option.some.injEq, Prod.mk.injEq] at h; rw [← h.2.1]; split <;> rfl
+    · simp only [Option.some.injEq, Prod.mk.injEq] at h; rw [← h.2.1]; rfl
 
 theorem execTAct_exportTop {cfg : Cfg} {fs : FS} {rec : Runner} {a : TAct} {fr fr' : Frame} {s s' : St}
     {r : Option Err} (h : execTAct cfg fs rec a fr s = some (r, fr', s')) :
